@@ -443,3 +443,78 @@ func bitsToBytes(c *Ctx, rule string, pkgs []string) int {
 	}
 	return n
 }
+
+// hashReuse: hash.Hash.Sum does not reset the state. In the listed packages every digest is a digest of its own message
+// (there is no running transcript hash there), so on a hash object created in a function no Write may be reachable
+// from a Sum on the same object unless every path between them passes one Reset of that object: S2 = H(0x03‖…) taken
+// from an object that already absorbed 0x02‖… is H(0x02‖…‖0x03‖…).
+func hashReuse(c *Ctx, rule string, pkgs []string) (n int) {
+	for _, pkg := range pkgs {
+		for _, f := range c.P.RepoFuncs(pkg) {
+			if strings.HasSuffix(c.P.relFile(f.Pos()), "_test.go") {
+				continue
+			}
+			type use struct{ sums, writes, resets []*ssa.Call }
+			objs := map[ssa.Value]*use{}
+			var order []ssa.Value
+			for _, ci := range allCalls(f) {
+				call, ok := ci.(*ssa.Call)
+				if !ok {
+					continue
+				}
+				var recv ssa.Value
+				name := ""
+				if call.Call.IsInvoke() {
+					recv, name = call.Call.Value, call.Call.Method.Name()
+				} else if sc := call.Call.StaticCallee(); sc != nil && sc.Signature.Recv() != nil && len(call.Call.Args) > 0 {
+					recv, name = call.Call.Args[0], sc.Name()
+				}
+				if recv == nil {
+					continue
+				}
+				mk, isCall := recv.(*ssa.Call)
+				if !isCall || mk.Parent() != f {
+					continue // not created here
+				}
+				u := objs[recv]
+				if u == nil {
+					u = &use{}
+					objs[recv] = u
+					order = append(order, recv)
+				}
+				switch name {
+				case "Sum":
+					u.sums = append(u.sums, call)
+				case "Write":
+					u.writes = append(u.writes, call)
+				case "Reset":
+					u.resets = append(u.resets, call)
+				}
+			}
+			k := 0
+			for _, ov := range order {
+				u := objs[ov]
+				for _, s := range u.sums {
+					for _, w := range u.writes {
+						if !instrReaches(s, w, nil) {
+							continue
+						}
+						n++
+						k++
+						c.Evals++
+						cut := false
+						for _, r := range u.resets {
+							if !instrReaches(s, w, r) {
+								cut = true
+							}
+						}
+						if !cut {
+							c.Violated(rule, fname(f), fmt.Sprintf("Write after Sum on the same hash object #%d", k), "a Write at "+c.P.pos(w.Pos())+" is reachable from this Sum without a Reset of the object in between: Sum does not reset the state, so the next digest also covers everything written before", s.Pos())
+						}
+					}
+				}
+			}
+		}
+	}
+	return n
+}
